@@ -860,49 +860,21 @@ Qed.
 (** ** the reader /repo has now ([nt_fixed_tok], [nt_fixed_dlt], [nt_tok_end_at_hash], [nt_uri_unclosed_to_eol]) *)
 From Shexer Require Import Spec.NtDomCur.
 
-Lemma line_partial_cur allow t l :
+(** one line that is not skipped, on the domain of the reader /repo has *)
+Lemma process_line_cur_ok allow t l :
   valid_triple t = true -> valid_layout l = true -> C06_dom_cur t l = true ->
-  kinded_result (read_raw_string_cur allow (nt_line t l)) = Some ([kinded t], 0%nat).
+  exists s o, process_line_cur allow (nt_line t l) = LYield s (t_p t) o /\ k3 (s, t_p t, o) = kinded t.
 Proof.
-  unfold C06_dom_cur, read_raw_string_cur. destruct nt_fixed_tok; [destruct nt_fixed_dlt|];
-    [apply line_partial_g2 | apply line_partial_fx | apply line_partial].
-Qed.
-
-Lemma document_partial_cur allow (ts : list (striple * layout)) :
-  Forall (fun x => valid_triple (fst x) = true /\ valid_layout (snd x) = true /\ C06_dom_cur (fst x) (snd x) = true) ts ->
-  kinded_result (read_raw_string_cur allow (nt_doc ts)) = Some (map (fun x => kinded (fst x)) ts, 0%nat).
-Proof.
-  unfold C06_dom_cur, read_raw_string_cur. destruct nt_fixed_tok; [destruct nt_fixed_dlt|];
-    [apply document_partial_g2 | apply document_partial_fx | apply document_partial].
-Qed.
-
-Lemma line_terminates_cur allow t l :
-  valid_triple t = true -> valid_layout l = true -> C06_dom_cur t l = true ->
-  forall ys e, read_raw_string_cur allow (nt_line t l) <> DocHang ys e.
-Proof.
-  intros V VL D ys e H. pose proof (line_partial_cur allow t l V VL D) as K. rewrite H in K. discriminate.
+  unfold C06_dom_cur, process_line_cur. destruct nt_fixed_tok; [destruct nt_fixed_dlt|]; intros V VL D.
+  - apply process_line_g2_ok; try assumption. apply dom_fx3_f7. exact D.
+  - apply process_line_fx_ok; assumption.
+  - apply process_line_ok; assumption.
 Qed.
 
 (** with the switch [nt_tok_end_at_hash] (on top of the earlier repairs) the domain is everything *)
 Lemma dom_cur_total :
   nt_fixed_tok = true -> nt_fixed_dlt = true -> nt_tok_end_at_hash = true -> forall t l, C06_dom_cur t l = true.
 Proof. intros E1 E2 E3 t l. unfold C06_dom_cur. rewrite E1, E2, E3. apply dom_fx3_total. Qed.
-
-Lemma line_full_cur :
-  nt_fixed_tok = true -> nt_fixed_dlt = true -> nt_tok_end_at_hash = true ->
-  forall allow t l, valid_triple t = true -> valid_layout l = true ->
-  kinded_result (read_raw_string_cur allow (nt_line t l)) = Some ([kinded t], 0%nat).
-Proof. intros E1 E2 E3 allow t l V VL. apply line_partial_cur; auto using dom_cur_total. Qed.
-
-Lemma document_full_cur :
-  nt_fixed_tok = true -> nt_fixed_dlt = true -> nt_tok_end_at_hash = true ->
-  forall allow (ts : list (striple * layout)),
-  Forall (fun x => valid_triple (fst x) = true /\ valid_layout (snd x) = true) ts ->
-  kinded_result (read_raw_string_cur allow (nt_doc ts)) = Some (map (fun x => kinded (fst x)) ts, 0%nat).
-Proof.
-  intros E1 E2 E3 allow ts H. apply document_partial_cur. eapply Forall_impl; [|exact H].
-  intros x (A & B). auto using dom_cur_total.
-Qed.
 
 Lemma forallb_negb_iff rs : forallb negb rs = true <-> Forall (fun b => b = false) rs.
 Proof.
